@@ -204,6 +204,23 @@ theorem measurement_print_parse_partial (sub : Option (P SelectStmt)) (s : PStat
   obtain ⟨s', h1, h2⟩ := parseSource_print sub s pre m k hpre hname hsys hdb hrp hnm hlast hk hs
   exact ⟨s', h1, h2, h2.scanIW_eq, h2.around⟩
 
+/-- **C06 (multi-part names in `INTO`).** `Target.String()` = `INTO ` + `Measurement.String()`: for a named
+measurement, followed by a blank and a rune `c` that is neither white space, NUL nor `:` (in a statement:
+` FROM …`), `parseTarget` returns the target with Database / RetentionPolicy / Name = the three parts. The
+hypothesis on `c` is real: after `parseSegmentedIdents`, `parseTarget` looks at the *rune reader* for the
+`:` of `:MEASUREMENT`, and the reader stands behind the pushed-back blank. `_partial` for the same reason
+as `measurement_print_parse_partial` (`m.name ≠ []`; a target without a name prints `db.rp.:MEASUREMENT`,
+which is a different branch of the loop). -/
+theorem target_print_parse_partial (required : Bool) (s : PState) (m : Measurement) (c : Char) (t : Str)
+    (hname : m.name ≠ []) (hsys : m.systemIterator = [])
+    (hdb : Expressible m.database) (hrp : Expressible m.retentionPolicy) (hnm : Expressible m.name)
+    (hc : isWhitespace c = false) (hce : c ≠ eofRune) (hcc : c ≠ ':')
+    (hs : s.Around (' ' :: (printTarget m ++ ' ' :: c :: t))) :
+    ∃ s', (parseTarget required).run s =
+        .ok (some { database := m.database, retentionPolicy := m.retentionPolicy, name := m.name, isTarget := true },
+          s') ∧ s'.AfterLook (' ' :: c :: t) :=
+  parseTarget_print required s m c t hname hsys hdb hrp hnm hc hce hcc hs
+
 /-- Why `m.name ≠ []` is needed: the measurement with database `a`, policy `b` and an empty name (the
 parser produces it for `a.b.""`) prints as `a.b.`, and that text is rejected (`found EOF, expected
 identifier`); likewise `a..` for an empty policy and name. -/
@@ -260,6 +277,16 @@ example : ∃ s', (parseSourceWith none).run (PState.init "a.b.c".toList [] []) 
     { database := "a".toList, retentionPolicy := "b".toList, name := "c".toList }
     [eofRune] Gap.none (by decide) rfl (by decide) (by decide) (by decide)
     (Or.inr WordEnd.eof) SegEnd.eof (e ▸ (PState.init_before _ [] []).around)
+  exact ⟨s', h⟩
+example : ∃ s', (parseTarget false).run (PState.init " INTO \"my db\"..\"cpu load\" FROM x".toList [] []) =
+    .ok (some { database := "my db".toList, name := "cpu load".toList, isTarget := true }, s') := by
+  have e : foldCR " INTO \"my db\"..\"cpu load\" FROM x".toList ++ [eofRune] =
+      ' ' :: (printTarget { database := "my db".toList, name := "cpu load".toList } ++
+        ' ' :: 'F' :: ("ROM x".toList ++ [eofRune])) := by decide +kernel
+  obtain ⟨s', h, _⟩ := target_print_parse_partial false (PState.init " INTO \"my db\"..\"cpu load\" FROM x".toList [] [])
+    { database := "my db".toList, name := "cpu load".toList } 'F' ("ROM x".toList ++ [eofRune])
+    (by decide) rfl (by decide) (by decide) (by decide) (by decide) (by decide) (by decide)
+    (e ▸ (PState.init_before _ [] []).around)
   exact ⟨s', h⟩
 
 end InfluxQL.C06
